@@ -292,7 +292,8 @@ template<class S> struct Checker
   }
   bool raisedDim(const Out& o, const string& combo, const string& what)
   {
-    return vrt::expect(o.k == 1, (g + ".nonconformable").c_str(), cls + "," + what + ",outcome=" + o.kindName(), [&] { return ops() + " storage " + combo + " (" + what + ") => " + o.text + ", expected DimensionException"; });
+    // class = kind of mismatch + outcome (not the shapes: one missing validation = one signature)
+    return vrt::expect(o.k == 1, (g + ".nonconformable").c_str(), what + ",outcome=" + o.kindName(), [&] { return ops() + " storage " + combo + " (" + what + ") => " + o.text + ", expected DimensionException"; });
   }
   // compare one output matrix; ko = storage class of the output; slot = index of the output argument
   bool check(const Matrix<S>& O, int ko, const string& combo, const Exp& e, size_t slot = 0, const char* name = "O")
@@ -738,7 +739,7 @@ template<class S> void addBad(vrt::Case& c, int sm)
   Opnd<S> B(genDense<S>(c.rng, br, bc, mode));
   const string G = scaled ? "add-scaled" : "add";
   string cls = "A=" + sc(r, cc);
-  string what = "B-" + how;
+  string what = (br >= r && bc >= cc) ? "B-larger" : (br <= r && bc <= cc) ? "B-smaller" : "B-larger-and-smaller";
   vrt::describe(G + "-bad:" + what, G + " " + SM[sm] + " A " + str(r) + "x" + str(cc) + " B " + str(br) + "x" + str(bc));
   vrt::cover(G + ":nonconformable:" + what + ":" + cls);
   Checker<S> ck(G, cls, [&] { return G + "(A=" + dumpD(A0) + (scaled ? ", x=" + num(x) : string()) + ", B=" + dumpD(B.d) + ")"; });
